@@ -64,14 +64,15 @@ def find_part(chk, path):
 
 
 def crash_signature(logtext):
-    for pat in (r"SUMMARY: \w+Sanitizer: (.*)", r"(runtime error: .*)", r"(Assertion .* failed)", r"(VF-HANG.*)",
-                r"(VF-TERMINATE.*)", r"(VF-SIGNAL.*)", r"(terminate called .*)"):
+    """Failure class of a crash: the most specific line available, without addresses / line-noise that varies between runs."""
+    for pat in (r"(runtime error: [^\n]*)", r"(Assertion [^\n]* failed)", r"(VF-HANG[^\n]*)", r"(VF-TERMINATE[^\n]*)", r"(VF-SIGNAL[^\n]*)",
+                r"(terminate called [^\n]*)"):
         m = re.search(pat, logtext)
         if m:
-            s = m.group(1)
-            s = re.sub(r"0x[0-9a-f]+", "0x?", s)
-            s = re.sub(r" in .*", "", s) if "Sanitizer" in pat else s
-            return s[:160]
+            return re.sub(r"0x[0-9a-f]+", "0x?", m.group(1))[:160]
+    m = re.search(r"SUMMARY: \w+Sanitizer: ([\w-]+)", logtext)
+    if m:
+        return "sanitizer:" + m.group(1)   # e.g. stack-overflow, heap-buffer-overflow, SEGV (the location varies between runs)
     return "unknown-crash"
 
 
@@ -113,7 +114,7 @@ def write_case(path, recs, header=""):
             f.write("R" + "".join(" %d" % v for v in r) + "\n")
 
 
-def minimise_crash(exe, sub, casefile, avoid, tier, sig, workdir, budget=400):
+def minimise_crash(exe, sub, casefile, avoid, tier, sig, workdir, budget=20):
     """Delta-debugging over replay subprocesses for cases that kill the process (sanitizer, abort, hang)."""
     recs = parse_case(casefile)
     tmp = os.path.join(workdir, "min.case")
@@ -124,7 +125,7 @@ def minimise_crash(exe, sub, casefile, avoid, tier, sig, workdir, budget=400):
             return False
         steps[0] += 1
         write_case(tmp, rs)
-        rc, out = run_replay(exe, sub, tmp, avoid, tier, timeout=60)
+        rc, out = run_replay(exe, sub, tmp, avoid, tier, timeout=15)
         return rc == 3 and crash_signature(out) == sig
 
     progress = True
@@ -231,7 +232,7 @@ def worker_campaign(exe, sub, seed, start, count, maxsize, workdir, wid, avoid, 
         res["crashes"].append(dict(sig=crash_signature(logtext), full=crash_signature_full(logtext), case=crashcase, log=logp, index=idx))
         cur = idx + 1
         restarts += 1
-        if restarts > 25:
+        if restarts > 8:
             B.log("too many crashes in worker %d of %s; stopping this worker" % (wid, sub))
             break
     return res
@@ -356,8 +357,11 @@ def cmd_check(pid, tier, seed):
         merged["distinct"] += distinct
         merged["parts"][sub] = dict(evaluations=pe, nontrivial=pn, distinct_nontrivial=distinct)
         # crashes: minimise one per signature
-        for sig, lst in crash_by_sig.items():
+        for nsig, (sig, lst) in enumerate(crash_by_sig.items()):
             c = lst[0]
+            if nsig >= 3:
+                notes.append("%s: further crash class not minimised: %s (%d occurrence(s))" % (sub, sig, len(lst)))
+                continue
             if not c.get("case"):
                 health_errors.append("harness died without a dump: " + sig)
                 continue
